@@ -50,7 +50,7 @@ CLI_NOTE = ("Trusted base: TLC 1.8.0; the add-only hooks of src/cli/verif_hooks.
             "(tree materialisation outside git repositories, uid 65534 via setpriv, file snapshots); vh libfmt for expected contents. "
             "Bounded: generator constants in spec/MC_*.cfg; only executed scenarios count.")
 CLI_CLAIMED = {
- "C13": ("Every sequence of <= 2 (thorough: 3) files over 10 classes (formatted, unformatted, differing only in line terminators, unparseable, missing, unreadable, read-only, verification-failing, crashing, non-UTF-8), "
+ "C13": ("Every sequence of <= 2 (thorough: 3) files over 12 classes (formatted, unformatted, differing only in line terminators, lacking only the final newline, empty, unparseable, missing, unreadable, read-only, verification-failing, crashing, non-UTF-8), each named explicitly, found through a directory argument, or both (reachable twice: reported and written once), "
          "named explicitly or inside a directory, x mode x 4 output formats x --verify x thread counts, run on the hooked binary; each run's hook trace (dispatch, fs_write, atomic accesses to the exit "
          "status, exit) is replayed through Cli.tla's actions by TLC, the traced atomics must agree with the model value, and the final observation (bytes, mtimes, created files, exit, printed diffs) is judged by Cli!FinalFails.",
          "G(MC_CliFiles)->R(hooked binary)->V(Trace_Cli over Cli.tla)", "5 C13"),
@@ -64,10 +64,10 @@ CLI_CLAIMED = {
          "and in the four XDG/HOME locations, x option sets (--config-path, --search-parent-directories, --no-editorconfig, a command-line override) x target sets including several targets in one run (memo interaction), a directory, stdin with/without "
          "--stdin-filepath. Every file carries a distinct indent width, so the applied configuration is read off the output and judged by ConfigSearch!Resolve; the memoised search is transcribed (ImplHistory) and TLC checks it refines Resolve for every history.",
          "TLC model ConfigSearch (ImplRefines invariant) + G->R->V", "5 C15"),
- "C16": ("A fixed tree (nested directories, hidden entries, .luau and non-Lua files) with .styluaignore files at two levels over a pattern language (name, dir/, *.ext, /anchored, negations; <= 2 patterns), x argument lists (files, directories, overlapping, "
+ "C16": ("A fixed tree (nested directories, hidden entries, .luau and non-Lua files) with .styluaignore files at two levels over a pattern language (name, dir/, *.ext, /anchored, negations; <= 2 patterns), x argument lists (files, directories, overlapping, spelled through `..` (one file under two spellings; two same-named files at different levels), "
          "repeated, two spellings, a directory together with an explicit non-Lua file in both orders) x -g glob lists (selecting, excluding, mixed order, directory exclusion, dir/**) x --respect-ignores / --allow-hidden; processed set (bytes changed) and dispatch events judged against Selection!Selected (gitignore semantics in TLA+), with a stated tolerance for an explicitly named ignored directory.",
          "TLC model Selection + G->R->V (processed set and dispatch counts)", "5 C16"),
- "C17": ("Input classes (valid, invalid, empty, CRLF, no final newline, large) x write/check in 4 formats x --stdin-filepath situations (none, not ignored, ignored directory 1-3 levels up, ignored file, ignored without --respect-ignores, directory with its own "
+ "C17": ("Input classes (valid, invalid, empty, CRLF, no final newline, large, a multi-kilobyte last line without a final newline) x write/check in 4 formats x --stdin-filepath situations (none, not ignored, ignored directory 1-3 levels up, ignored file, ignored without --respect-ignores, directory with its own "
          "stylua.toml, directory with its own .editorconfig) x extras; stdout compared with the library's output / the input / empty, exit status, no fs_write event, tree snapshot unchanged.",
          "G(MC_Stdin)->R->V(Trace_Cli!StdinFails)", "5 C17"),
  "C18": ("(original, formatted) pairs from real formatting: every sequence of <= 4 edit-shape segments (unchanged, changed, expanding, collapsing, blank-run, moved by require sorting) x {LF, CRLF, no final newline}, and the repository's test inputs at several widths, "
